@@ -81,8 +81,13 @@ func TestVerif_HealthBreaker(t *testing.T) {
 						ageF = now - v
 					}
 				}
+				// only the half-open window has anything to race for: closed admits everyone, open-and-young no one
+				rounds := 1
+				if have && atomic.LoadInt32(&st.isOpen) == 1 && time.Duration(ageF) > cb.timeout {
+					rounds = 150
+				}
 				minAd, maxAd := int64(n+1), int64(-1)
-				for round := 0; round < 150; round++ {
+				for round := 0; round < rounds; round++ {
 					if have && round > 0 {
 						now := time.Now().UnixNano()
 						if ageA != 0 {
